@@ -31,4 +31,10 @@ for seed in 1 7; do
     if [ "$da" = "$db" ] && [ -n "$da" ]; then echo "selfcheck seed=$seed C05 limit=$limit digest/evaluations/distinct=$da  [3/16 workers agree]"; else echo "DIVERGENCE seed=$seed C05 limit=$limit: $da vs $db"; fail=1; fi
   done
 done
+# Miri engine of C19: one (scenario seed, Miri seed) pair is one execution - run a first-use race
+# scenario twice over 12 Miri seeds and compare what every execution printed
+for i in 1 2; do
+  ( cd miri19 && MIRIFLAGS="-Zmiri-many-seeds=0..12 -Zmiri-preemption-rate=0.05" cargo +nightly miri run --offline --quiet -- 5 race:9 2>/dev/null | grep MIRI- | sort > ../target/selfcheck/miri_$i.txt )
+done
+if cmp -s target/selfcheck/miri_1.txt target/selfcheck/miri_2.txt && [ -s target/selfcheck/miri_1.txt ]; then echo "selfcheck miri19: 12 Miri seeds x 2 runs identical ($(sort -u target/selfcheck/miri_1.txt | wc -l) distinct histories)"; else echo "DIVERGENCE miri19"; fail=1; fi
 if [ $fail = 0 ]; then echo "selfcheck: all digests agree"; exit 0; else exit 2; fi
